@@ -54,7 +54,7 @@ pub fn c06(tier: Tier, seed: u64) -> i32 {
     let acc = run_histories(
         seed,
         per_shard,
-        move |_r| HistCfg { ops: 120, pools: 3, allow_adaptive: true, w_swap: 52, w_two_hop: 10, w_liq: 22, w_fees: 10, w_lifecycle: 2, w_clock: 3, w_setters: 3, ..Default::default() },
+        move |_r| HistCfg { ops: 120, pools: 3, allow_adaptive: true, lifecycle_ext: true, w_swap: 52, w_two_hop: 10, w_liq: 22, w_fees: 10, w_lifecycle: 4, w_clock: 3, w_setters: 3, ..Default::default() },
         || vec![Box::new(C06) as Box<dyn Monitor>],
     );
     rep.acc = acc;
@@ -74,7 +74,7 @@ pub fn c07(tier: Tier, seed: u64) -> i32 {
     let acc = run_histories(
         seed,
         per_shard,
-        move |_r| HistCfg { ops: 130, spl_only: false, seed_growth: true, w_swap: 45, w_liq: 30, w_fees: 18, w_lifecycle: 3, w_clock: 2, w_setters: 2, ..Default::default() },
+        move |_r| HistCfg { ops: 130, spl_only: false, seed_growth: true, lifecycle_ext: true, w_swap: 45, w_liq: 30, w_fees: 18, w_lifecycle: 7, w_clock: 2, w_setters: 2, ..Default::default() },
         || vec![Box::new(C07::default()) as Box<dyn Monitor>],
     );
     rep.acc = acc;
@@ -93,7 +93,7 @@ pub fn c12(tier: Tier, seed: u64) -> i32 {
     let acc = run_histories(
         seed,
         per_shard,
-        move |_r| HistCfg { ops: 130, spl_only: false, allow_transfer_fee: true, seed_growth: true, w_swap: 28, w_liq: 48, w_fees: 6, w_lifecycle: 5, w_clock: 6, w_setters: 2, w_reward: 9, ..Default::default() },
+        move |_r| HistCfg { ops: 130, spl_only: false, allow_transfer_fee: true, seed_growth: true, lifecycle_ext: true, w_swap: 28, w_liq: 46, w_fees: 6, w_lifecycle: 8, w_clock: 6, w_setters: 2, w_reward: 9, ..Default::default() },
         || vec![Box::new(C12::default()) as Box<dyn Monitor>],
     );
     rep.acc = acc;
@@ -136,7 +136,7 @@ pub fn c10(tier: Tier, seed: u64) -> i32 {
     let acc = run_histories(
         seed,
         per_shard,
-        move |_r| HistCfg { ops: 120, spl_only: false, allow_adaptive: true, w_swap: 62, w_liq: 26, w_fees: 3, w_lifecycle: 4, w_clock: 3, w_setters: 2, ..Default::default() },
+        move |_r| HistCfg { ops: 120, spl_only: false, allow_adaptive: true, lifecycle_ext: true, w_swap: 60, w_liq: 26, w_fees: 3, w_lifecycle: 6, w_clock: 3, w_setters: 2, ..Default::default() },
         || vec![Box::new(C10::default()) as Box<dyn Monitor>],
     );
     rep.acc = acc;
@@ -163,7 +163,7 @@ pub fn c11(tier: Tier, seed: u64) -> i32 {
     let acc = run_histories(
         seed,
         per_shard,
-        move |_r| HistCfg { ops: 150, spl_only: false, seed_growth: true, w_swap: 22, w_liq: 22, w_fees: 6, w_lifecycle: 3, w_clock: 6, w_setters: 1, w_reward: 40, ..Default::default() },
+        move |_r| HistCfg { ops: 150, spl_only: false, seed_growth: true, lifecycle_ext: true, w_swap: 22, w_liq: 22, w_fees: 6, w_lifecycle: 7, w_clock: 6, w_setters: 1, w_reward: 40, ..Default::default() },
         || vec![Box::new(C11::default()) as Box<dyn Monitor>],
     );
     rep.acc = acc;
